@@ -67,9 +67,31 @@ def nontrivial(cl):
     return {"breaks", "joins"} <= cl and bool(cl & {"cuts", "mixed_strand_junction_in_input", "mixed_strand_junction_in_output"})
 
 
+def grown_input(case):
+    """
+    The IndexedAssembly served an earlier remap (statistics made) when it held only its first scaffolds; the others
+    were added with add_scaffold() afterwards. Returns the object to use for the judged remap.
+    """
+    k = case["grown_input"]
+    inp = case["input"]
+    k = max(1, min(k, len(inp) - 1))
+    first_names = {n for n, _r in inp[:k]}
+    first = dict(case, input=inp[:k], map=[[pn, rows] for pn, rows in case["map"] if all(r[0] != "F" or r[1] in first_names for r in rows)])
+    first.pop("grown_input", None)
+    input_asm, _ = remap.build_inputs(first)
+    if first["map"]:
+        try:
+            remap.run_api(first, input_asm)
+        except Exception:  # noqa: BLE001
+            pass
+    for n, rows in inp[k:]:
+        input_asm.add_scaffold(conv.mk_scaffold(n, rows))
+    return input_asm
+
+
 def body_api(case, rec):
     try:
-        res = remap.run_api(case)
+        res = remap.run_api(case, grown_input(case) if case.get("grown_input") and len(case["input"]) > 1 else None)
     except Exception as e:  # noqa: BLE001
         rec.note(case, False, {"error", "error_" + type(e).__name__})
         return
@@ -99,6 +121,12 @@ def body_cli(case, rec):
         mp.write_text(remap.map_agp_text(case))
         out = d / "out" / "x.1.agp"
         out.parent.mkdir()
+        if len(case["map"]) % 2:
+            # the output directory holds the report of an earlier curation of the same specimen (several assemblies,
+            # other figures): the default --clobber run must replace it completely
+            (out.parent / "x.1.info.yaml").write_text(
+                "assemblies:\n  Hap1:\n    manual_breaks: 91\n    manual_joins: 92\n  Hap2:\n    manual_breaks: 93\n    manual_joins: 94\n"
+                "manual_breaks: 97\nmanual_haplotig_removals: 98\nmanual_joins: 99\nlater_step: kept?\n")
         res = remap.run_cli_inprocess(["-a", inp, "-p", mp, "-o", out])
         if res.exit_code != 0:
             rec.note(case, False, {"error"})
@@ -124,6 +152,8 @@ def body_cli(case, rec):
         if got != exp:
             raise Violation(f"log line reports cuts/breaks/joins {got}, files written contain {exp}")
         info = yaml.safe_load((out.parent / "x.1.info.yaml").read_text())
+        if "later_step" in info or any(k in ("Hap1", "Hap2") and v.get("manual_breaks") in (91, 93) for k, v in (info.get("assemblies") or {}).items()):
+            raise Violation(f"info.yaml still holds entries of the report that was in the output directory before the run: {info}")
         if "manual_breaks" in info and (info["manual_breaks"], info["manual_joins"]) != exp[1:]:
             raise Violation(f"info.yaml totals {info['manual_breaks']}/{info['manual_joins']} differ from {exp[1:]}")
         asms = info.get("assemblies") or {}
@@ -170,6 +200,8 @@ def cases(draw, cli=False):
         m2, ops = draw(gen.perturb_map(m, inp, t))
         case["map"] = m2
         case["ops"] = ops
+    if not cli and draw(st.integers(0, 5)) == 0:
+        case["grown_input"] = draw(st.integers(1, 4))
     if not cli and draw(st.integers(0, 5)) == 0:
         case["late_prefix"] = draw(st.sampled_from(["CHR_", "LG", "SUPER_"]))
     if cli and draw(st.booleans()):
